@@ -101,19 +101,19 @@ def run(P: Program, R: Report, tier: str) -> None:
     for m in ann.methods.values():
         for lp in [x for x in ast.walk(m.node) if isinstance(x, (ast.For, ast.While))]:
             pass
-        writes = [c for c in ast.walk(m.node) if isinstance(c, ast.Call) and call_name(c) == "_set_node_attr" and len(c.args) >= 2]
+        writes = [c for c in ast.walk(m.node) if isinstance(c, ast.Call) and call_name(c) in ("_set_node_attr", "_set_nodes_attr") and len(c.args) >= 2]
         for w in writes:
             fam = next((f for f in fams if norm(w.args[1]) == f"self.{f['key']}"), None)
             if fam is None:
                 continue
             n += 1
             node_var = norm(w.args[0])
-            # the list that collects the same node next to the write (same statement list)
-            coll = None
+            # the list that collects the same node next to the write (same statement list); a bulk write names it itself
+            coll = node_var if call_name(w) == "_set_nodes_attr" and isinstance(w.args[0], ast.Name) else None
             for blk in ast.walk(m.node):
                 for fld in ("body", "orelse"):
                     stmts = getattr(blk, fld, None)
-                    if isinstance(stmts, list) and any(w in list(ast.walk(s)) for s in stmts if isinstance(s, ast.stmt)):
+                    if coll is None and isinstance(stmts, list) and any(w in list(ast.walk(s)) for s in stmts if isinstance(s, ast.stmt)):
                         for s in stmts:
                             if isinstance(s, ast.Expr) and isinstance(s.value, ast.Call) and call_name(s.value) == "append" and s.value.args and norm(s.value.args[0]) == node_var:
                                 if not any(w in list(ast.walk(inner)) for inner in ast.walk(blk) if inner is not blk and isinstance(inner, (ast.If, ast.For, ast.While)) and any(s2 is s for s2 in ast.walk(inner))):
@@ -193,47 +193,7 @@ def run(P: Program, R: Report, tier: str) -> None:
     R.floor("R06.5", "maximum updates", n, 4)
 
     # ---- R06.6 new node ids
-    issuer = P.func_named("_get_new_node_ids", "Tracks")
-    cfg = build_cfg(issuer.node)
-    counter = None
-    for s in ast.walk(issuer.node):
-        if isinstance(s, ast.AugAssign) and isinstance(s.target, ast.Attribute) and isinstance(s.op, ast.Add):
-            counter = s.target.attr
-    if counter is None:
-        raise AnalysisError("_get_new_node_ids: no counter found")
-    nparam = issuer.params[1] if len(issuer.params) > 1 else "n"
-    reserve = [s for s in ast.walk(issuer.node) if isinstance(s, ast.AugAssign) and isinstance(s.target, ast.Attribute) and s.target.attr == counter and nparam in norm(s.value)]
-    loops = [s for s in ast.walk(issuer.node) if isinstance(s, ast.While) and ("has_node" in norm(s.test) or " in " in norm(s.test))]
-    R.check(bool(loops), "R06.6", issuer, issuer.node, "every candidate id is tested against the graph in a retry loop",
-            "no membership retry loop: an id already in the graph can be returned", via="syntax")
-    for lp in loops:
-        draws = [s for s in ast.walk(lp) if isinstance(s, ast.Assign) and f"self.{counter}" in norm(s.value)]
-        R.check(bool(draws), "R06.6", issuer, lp, "a colliding candidate is replaced by a new draw from the counter", "", via="syntax")
-        for r in reserve:
-            rn, ln = cfg.node_of(r), cfg.node_of(lp)
-            outer = ln
-            if ln is None:
-                for nnode in cfg.stmts():
-                    if nnode.ast is not None and any(x is lp for x in ast.walk(nnode.ast)):
-                        outer = nnode.id
-            # the loop may be nested in a for: use the outermost statement that contains it
-            for nnode in cfg.stmts():
-                if isinstance(nnode.ast, ast.For) and any(x is lp for x in ast.walk(nnode.ast)):
-                    outer = nnode.id
-            ok = rn is not None and outer is not None and cfg.dominates(rn, outer) and not cfg.reachable(outer, rn)
-            R.check(ok, "R06.6", issuer, r, "the batch is reserved (counter advanced past all candidates) before replacements are drawn",
-                    "replacements are drawn while the counter still points inside the candidate batch: one call can return the same id twice",
-                    via="cfg-dominance")
-        # the id that went through the retry loop is what ends up in the returned list
-        checked = {x.id for x in ast.walk(lp.test) if isinstance(x, ast.Name)}
-        stores_back = any(
-            (isinstance(s, ast.Assign) and any(isinstance(t, ast.Subscript) for t in s.targets) and isinstance(s.value, ast.Name) and s.value.id in checked)
-            or (isinstance(s, ast.Call) and call_name(s) == "append" and s.args and isinstance(s.args[0], ast.Name) and s.args[0].id in checked)
-            for s in ast.walk(issuer.node)
-        )
-        R.check(stores_back, "R06.6", issuer, lp, "the checked id is what ends up in the returned list",
-                "the value that passed the membership loop is not the one returned", via="dataflow")
-    R.check(bool(reserve), "R06.6", issuer, issuer.node, "the counter is advanced by the batch size", "", via="syntax")
+    fresh_node_ids(P, R)
 
     # ---- R06.7 sibling agreement
     def shape(prefix: str, fam: dict) -> dict:
@@ -269,9 +229,30 @@ def move_order(P: Program, R: Report, ann, fams) -> None:
         def aliases(m):
             return {t.id for s_ in ast.walk(m.node) if isinstance(s_, ast.Assign) and f"self.{mp}" in norm(s_.value) for t in s_.targets if isinstance(t, ast.Name)}
 
-        def touches(m, kinds):
+        def touches(m, kinds, depth=0):
             out = []
             al = aliases(m)
+            # delegation: the map is handed to a helper that edits it through its parameter
+            if depth == 0:
+                for x in ast.walk(m.node):
+                    if isinstance(x, ast.Call) and isinstance(x.func, ast.Attribute) and any(norm(a_) == f"self.{mp}" for a_ in x.args):
+                        h = ann.methods.get(x.func.attr)
+                        if h is None or h is m:
+                            continue
+                        idx = [norm(a_) for a_ in x.args].index(f"self.{mp}")
+                        hp = [p_ for p_ in h.params if p_ not in ("self", "cls")]
+                        if idx >= len(hp):
+                            continue
+                        pn = hp[idx]
+                        derived = {pn}
+                        for s_ in ast.walk(h.node):
+                            if isinstance(s_, ast.Assign) and any(isinstance(y, ast.Name) and y.id in derived for y in ast.walk(s_.value)):
+                                derived |= {t.id for t in s_.targets if isinstance(t, ast.Name)}
+                        for y in ast.walk(h.node):
+                            if isinstance(y, ast.Call) and isinstance(y.func, ast.Attribute) and y.func.attr in kinds and isinstance(y.func.value, ast.Name) and y.func.value.id in derived:
+                                out.append(x)
+                            if "del" in kinds and isinstance(y, ast.Delete) and any(isinstance(t, ast.Subscript) and isinstance(t.value, ast.Name) and t.value.id in derived for t in y.targets):
+                                out.append(x)
             for x in ast.walk(m.node):
                 if isinstance(x, ast.Call) and isinstance(x.func, ast.Attribute) and x.func.attr in kinds and (
                         f"self.{mp}" in norm(x.func.value) or (isinstance(x.func.value, ast.Name) and x.func.value.id in al)):
@@ -324,3 +305,81 @@ def move_order(P: Program, R: Report, ann, fams) -> None:
                     else:
                         R.ok("R06.8", m, a, f"{name}: add-then-remove on a plain list (extend, then remove one occurrence each) keeps one copy", via="cfg-order")
     R.floor("R06.8", "move sites (remove + add of the same nodes)", n, 1)
+
+
+def fresh_node_ids(P: Program, R: Report) -> None:
+    """R06.6: the batch of candidates is reserved first (the counter moves past all of them), every candidate is
+    tested against the graph in a retry loop that draws from the counter, and what passed the test is returned.
+    The issuer and the same-class helpers it calls are looked at together."""
+    issuer = P.func_named("_get_new_node_ids", "Tracks")
+    cls = issuer.cls
+    closure = [issuer]
+    for c in ast.walk(issuer.node):
+        if isinstance(c, ast.Call) and isinstance(c.func, ast.Attribute) and norm(c.func.value) == "self":
+            h = P.lookup_method(cls.qname, c.func.attr) if cls else None
+            if h is not None and h not in closure and h.cls is not None and h.cls.name in ("Tracks", "SolutionTracks"):
+                closure.append(h)
+    counters = set()
+    for m in closure:
+        for s_ in ast.walk(m.node):
+            if isinstance(s_, ast.AugAssign) and isinstance(s_.target, ast.Attribute) and norm(s_.target.value) == "self" and isinstance(s_.op, ast.Add):
+                counters.add(s_.target.attr)
+    if len(counters) != 1:
+        R.undecided("R06.6", issuer, issuer.node, "new node ids are drawn from one counter", f"counter attribute not recognised ({sorted(counters)})")
+        return
+    counter = counters.pop()
+    nparam = issuer.params[1] if len(issuer.params) > 1 else "n"
+    reserve = [s_ for s_ in ast.walk(issuer.node)
+               if (isinstance(s_, ast.AugAssign) and isinstance(s_.target, ast.Attribute) and s_.target.attr == counter and nparam in norm(s_.value))
+               or (isinstance(s_, ast.Assign) and any(isinstance(t, ast.Attribute) and t.attr == counter for t in s_.targets) and nparam in norm(s_.value))]
+    R.check(bool(reserve), "R06.6", issuer, issuer.node, "the counter is advanced by the batch size", "", via="syntax")
+    loops = []  # (holder, loop)
+    for m in closure:
+        for s_ in ast.walk(m.node):
+            if isinstance(s_, ast.While):
+                t = norm(s_.test)
+                inner_test = any(isinstance(i, ast.If) and ("has_node" in norm(i.test) or " in " in norm(i.test)) for i in ast.walk(s_))
+                if "has_node" in t or " in " in t or (t == "True" and inner_test):
+                    loops.append((m, s_))
+    R.check(bool(loops), "R06.6", issuer, issuer.node, "every candidate id is tested against the graph in a retry loop",
+            "no membership retry loop: an id already in the graph can be returned", via="syntax")
+    cfg = build_cfg(issuer.node)
+    for holder, lp in loops:
+        draws = [s_ for s_ in ast.walk(lp) if isinstance(s_, ast.Assign) and f"self.{counter}" in norm(s_.value)]
+        R.check(bool(draws), "R06.6", holder, lp, "a colliding candidate is replaced by a new draw from the counter", "", via="syntax")
+        # where, in the issuer, the retry loop runs: the loop itself or the call of its holder
+        if holder is issuer:
+            site = lp
+        else:
+            site = next((c for c in ast.walk(issuer.node) if isinstance(c, ast.Call) and isinstance(c.func, ast.Attribute) and c.func.attr == holder.name), None)
+        outer = None
+        if site is not None:
+            for nnode in cfg.stmts():
+                if nnode.ast is not None and any(x is site for x in ast.walk(nnode.ast)):
+                    if outer is None or isinstance(nnode.ast, ast.For):
+                        outer = nnode.id
+        for r in reserve:
+            rn = cfg.node_of(r)
+            if rn is None or outer is None:
+                R.undecided("R06.6", issuer, r, "the batch is reserved before replacements are drawn", "statements not found in the flow graph")
+                continue
+            ok = cfg.dominates(rn, outer) and not cfg.reachable(outer, rn)
+            R.check(ok, "R06.6", issuer, r, "the batch is reserved (counter advanced past all candidates) before replacements are drawn",
+                    "replacements are drawn while the counter still points inside the candidate batch: one call can return the same id twice",
+                    via="cfg-dominance")
+        # the id that went through the retry loop is what ends up in the result
+        checked = {x.id for x in ast.walk(lp) if isinstance(x, ast.Name) and isinstance(x.ctx, ast.Store)} | {x.id for x in ast.walk(lp.test) if isinstance(x, ast.Name)}
+        if holder is issuer:
+            stores_back = any(
+                (isinstance(s_, ast.Assign) and any(isinstance(t, ast.Subscript) for t in s_.targets) and isinstance(s_.value, ast.Name) and s_.value.id in checked)
+                or (isinstance(s_, ast.Call) and call_name(s_) == "append" and s_.args and isinstance(s_.args[0], ast.Name) and s_.args[0].id in checked)
+                for s_ in ast.walk(issuer.node))
+            R.check(stores_back, "R06.6", issuer, lp, "the checked id is what ends up in the returned list",
+                    "the value that passed the membership loop is not the one returned", via="dataflow")
+        else:
+            returned = [r_ for r_ in ast.walk(holder.node) if isinstance(r_, ast.Return) and r_.value is not None]
+            ok = bool(returned) and all(isinstance(r_.value, ast.Name) and r_.value.id in checked for r_ in returned)
+            if ok:
+                R.ok("R06.6", holder, lp, f"{holder.short} returns the id that passed the membership test", via="dataflow")
+            else:
+                R.undecided("R06.6", holder, lp, "the checked id is what the helper returns", "return shape not recognised")
